@@ -240,7 +240,7 @@ def _compile(g):
 
 def main(tier):
     run = check.Run(PID, tier)
-    check.JOB_BUDGET[0] = 240 if tier == 'quick' else 3000
+    check.JOB_BUDGET[0] = 240 if tier == 'quick' else 1500
     B = G.BASIC
     groups = [B["SO2"], B["SO3"], B["SE2"], B["C1"], B["SE3"]]
     if tier == "thorough":
@@ -258,7 +258,7 @@ def main(tier):
             else:
                 jobs += [(job, (g, fn, tier, [i])) for i in range(g.dof)]
     jobs += [(job_action, (g, tier)) for g in groups if g.act and g.name != "C1"]
-    run.extend(check.run_jobs(jobs, timeout=900 if tier == "quick" else 3600))
+    run.extend(check.run_jobs(jobs, timeout=900 if tier == "quick" else 1800))
     run.bounds += ["groups: " + ", ".join(g.name for g in groups) + ("; Galilei and SE_K_3<2>: dr_exp, dl_exp only" if tier == "quick" else "")]
     run.assumptions += ["layer R; rounding next to the series switch is not modelled", "exp oracle as decided in C02"]
     return run.finish()
